@@ -181,13 +181,19 @@ def collectFieldsUntyped : Nat → List Sel → List Frag → Vars → List Stri
   | fuel + 1, sels, frags, vars, seen =>
     loopM (collectStep (fun ss sn => collectFieldsUntyped fuel ss frags vars sn) frags vars) ([], seen) sels
 
-/-! ### `selected_fields` (pattern = None) — used by the UNCHANGED rule -/
+/-! ### `selected_fields`
+
+  `selectedFieldsOrig` — the code before proposed_fixes/C19-Q1sf.patch (descends into `fields[0]`
+  only; this is what the UNCHANGED depth rule measured through);
+  `selectedPaths` / `selectedFields` — after it (`_selected_paths` descends into the merged
+  sub-selections of a response-key group). `pat` is the compiled `pattern` as a predicate on the
+  path (`fun _ => true` for `pattern=None`). -/
 
 /-- `(not maxdepth) or len(_path) < (maxdepth - 1)`; `maxdepth = 0` also stands for `None`. -/
 def descend (maxdepth : Nat) (pathLen : Nat) : Bool :=
   maxdepth == 0 || decide (pathLen + 1 < maxdepth)
 
-def selectedLoop (rec : List Sel → List String → Except Err (List (List String)))
+def selectedLoopOrig (rec : List Sel → List String → Except Err (List (List String)))
     (maxdepth : Nat) (path : List String) : List (List String) → Grouped → Except Err (List (List String))
   | acc, [] => .ok acc
   | acc, (_, fields) :: rest =>
@@ -199,12 +205,12 @@ def selectedLoop (rec : List Sel → List String → Except Err (List (List Stri
       if descend maxdepth path.length then
         match rec child.sub childPath with
         | .error e => .error e
-        | .ok more => selectedLoop rec maxdepth path (acc ++ more) rest
-      else selectedLoop rec maxdepth path acc rest
+        | .ok more => selectedLoopOrig rec maxdepth path (acc ++ more) rest
+      else selectedLoopOrig rec maxdepth path acc rest
 
-/-- `selected_fields(field, fragments=, variables=, maxdepth=, _path=)`; the field is given by its
-    sub-selection; a path is the list of its `/`-separated components. -/
-def selectedFields : Nat → List Sel → List Frag → Vars → Nat → List String → Except Err (List (List String))
+/-- unchanged `selected_fields(field, fragments=, variables=, maxdepth=, _path=)` (pattern = None); the field
+    is given by its sub-selection; a path is the list of its `/`-separated components. -/
+def selectedFieldsOrig : Nat → List Sel → List Frag → Vars → Nat → List String → Except Err (List (List String))
   | 0, _, _, _, _, _ => .error .recursion
   | fuel + 1, sub, frags, vars, maxdepth, path =>
     match sub with
@@ -213,7 +219,41 @@ def selectedFields : Nat → List Sel → List Frag → Vars → Nat → List St
       match collectFieldsUntyped (fuel + 1) sub frags vars [] with
       | .error e => .error e
       | .ok (collected, _) =>
-        selectedLoop (fun s p => selectedFields fuel s frags vars maxdepth p) maxdepth path [] collected
+        selectedLoopOrig (fun s p => selectedFieldsOrig fuel s frags vars maxdepth p) maxdepth path [] collected
+
+/-- the loop of `_selected_paths` -/
+def pathsLoop (rec : List Sel → List String → Except Err (List (List String)))
+    (maxdepth : Nat) (pat : List String → Bool) (path : List String) :
+    List (List String) → Grouped → Except Err (List (List String))
+  | acc, [] => .ok acc
+  | acc, (_, fields) :: rest =>
+    match fields with
+    | [] => .error .index                    -- `fields[0]`
+    | child :: _ =>
+      let childPath := path ++ [child.name]
+      let acc := if pat childPath then acc ++ [childPath] else acc
+      if descend maxdepth path.length then
+        match rec (fields.flatMap (·.sub)) childPath with
+        | .error e => .error e
+        | .ok more => pathsLoop rec maxdepth pat path (acc ++ more) rest
+      else pathsLoop rec maxdepth pat path acc rest
+
+/-- `_selected_paths(selections, fragments, variables, maxdepth, pattern, path)` -/
+def selectedPaths : Nat → List Sel → List Frag → Vars → Nat → (List String → Bool) → List String →
+    Except Err (List (List String))
+  | 0, _, _, _, _, _, _ => .error .recursion
+  | fuel + 1, sels, frags, vars, maxdepth, pat, path =>
+    match collectFieldsUntyped (fuel + 1) sels frags vars [] with
+    | .error e => .error e
+    | .ok (collected, _) =>
+      pathsLoop (fun s p => selectedPaths fuel s frags vars maxdepth pat p) maxdepth pat path [] collected
+
+/-- `selected_fields(field, ...)` after the fix; `sub = []` is `field.selection_set is None` -/
+def selectedFields (fuel : Nat) (sub : List Sel) (frags : List Frag) (vars : Vars) (maxdepth : Nat)
+    (pat : List String → Bool) (path : List String) : Except Err (List (List String)) :=
+  match sub with
+  | [] => .ok []
+  | _ => selectedPaths fuel sub frags vars maxdepth pat path
 
 /-! ### `MaxDepthValidationRule.__call__` -/
 
@@ -233,7 +273,7 @@ def depthOrig (fuel : Nat) (op : Op) (frags : List Frag) (vars : Vars) : Except 
   match loopM (fun (acc : List (List String)) (s : Sel) =>
       match s with
       | .field _ _ _ sub =>
-        match selectedFields fuel sub frags vars 0 [] with
+        match selectedFieldsOrig fuel sub frags vars 0 [] with
         | .error e => .error e
         | .ok ps => .ok (acc ++ ps)
       | _ => .ok acc) [] op.sels with
@@ -243,12 +283,12 @@ def depthOrig (fuel : Nat) (op : Op) (frags : List Frag) (vars : Vars) : Except 
 
 /-- the loop over `doc.definitions`; result: (index of the operation among the operations, depth)
     for every reported error, in order. -/
-def ruleLoop (depthOf : Op → Except Err Nat) (limit : Nat) (filter : Option String) :
+def ruleLoop (depthOf : Nat → Op → Except Err Nat) (limit : Nat) (filter : Option String) :
     Nat → List Op → Except Err (List (Nat × Nat))
   | _, [] => .ok []
   | i, op :: rest =>
     if opSelected filter op then
-      match depthOf op with
+      match depthOf i op with
       | .error e => .error e
       | .ok d =>
         match ruleLoop depthOf limit filter (i + 1) rest with
@@ -259,7 +299,7 @@ def ruleLoop (depthOf : Op → Except Err Nat) (limit : Nat) (filter : Option St
 /-- `MaxDepthValidationRule(limit, operation_name=filter)(schema, doc, vars)` on the unchanged tree. -/
 def ruleOrig (fuel limit : Nat) (filter : Option String) (doc : Doc) (vars : Vars) :
     Except Err (List (Nat × Nat)) :=
-  ruleLoop (fun op => depthOrig fuel op doc.frags vars) limit filter 0 doc.ops
+  ruleLoop (fun _ op => depthOrig fuel op doc.frags vars) limit filter 0 doc.ops
 
 /-! #### after proposed_fixes/C19-Q1.patch -/
 
@@ -286,7 +326,41 @@ def depthFixed (fuel : Nat) (op : Op) (frags : List Frag) (vars : Vars) : Except
 
 def rule (fuel limit : Nat) (filter : Option String) (doc : Doc) (vars : Vars) :
     Except Err (List (Nat × Nat)) :=
-  ruleLoop (fun op => depthFixed fuel op doc.frags vars) limit filter 0 doc.ops
+  ruleLoop (fun _ op => depthFixed fuel op doc.frags vars) limit filter 0 doc.ops
+
+/-! #### after proposed_fixes/C19-Q1vars.patch: variables coerced per operation -/
+
+/-- a variable definition of an operation, as far as `@skip/@include` can see it (Boolean variables):
+    `$name: Boolean[!] [= default]` -/
+structure VarDef where
+  name : String
+  nonNull : Bool
+  default : Option Bool
+  deriving Repr, DecidableEq, Inhabited
+
+/-- `coerce_variable_values(schema, op, variables)` on Boolean variables: `none` = `VariablesCoercionError`
+    (a required variable without default is missing); extra variables are filtered out. -/
+def coerceVariableValues : List VarDef → Vars → Option Vars
+  | [], _ => some []
+  | d :: ds, vars =>
+    match coerceVariableValues ds vars with
+    | none => none
+    | some rest =>
+      match vars.lookup d.name with
+      | some b => some ((d.name, b) :: rest)
+      | none =>
+        match d.default with
+        | some v => some ((d.name, v) :: rest)
+        | none => if d.nonNull then none else some rest
+
+/-- `try: op_variables = coerce_variable_values(...) except VariablesCoercionError: op_variables = variables` -/
+def effectiveVars (defs : List VarDef) (vars : Vars) : Vars :=
+  (coerceVariableValues defs vars).getD vars
+
+/-- the rule after C19-Q1vars.patch; `defs[i]` = variable definitions of the i-th operation -/
+def ruleV (fuel limit : Nat) (filter : Option String) (doc : Doc) (defs : List (List VarDef)) (vars : Vars) :
+    Except Err (List (Nat × Nat)) :=
+  ruleLoop (fun i op => depthFixed fuel op doc.frags (effectiveVars (defs.getD i []) vars)) limit filter 0 doc.ops
 
 /-! ### fuel: a computable potential that bounds every recursion on acyclic documents -/
 
